@@ -1017,8 +1017,9 @@ class NetworkGraph(AbstractBaseIR):
         return d
 
     def _preprocess_delay(self, delay, discretize=True):
+        # a delay kept in time units is a Python float: the integer 1 stays reserved for "no delay" (see _add_edge_buffer)
         return int(np.round(delay / self.step_size, decimals=0)) if discretize and not self.step_size_adaptation \
-            else delay
+            else float(delay)
 
     def _bool_to_idx(self, v):
         v_idx = np.argwhere(v).squeeze()
